@@ -42,7 +42,7 @@ func pickReads(t *drive.Tape, max int) []int {
 		for j < len(t.Reads) && t.Reads[j].N == t.Reads[i].N && t.Reads[j].Tag == t.Reads[i].Tag {
 			j++
 		}
-		if j-i <= 6 {
+		if j-i <= 12 {
 			for k := i; k < j; k++ {
 				out = append(out, k)
 			}
